@@ -89,8 +89,12 @@ def check_log(obs, run, T):
 
 
 def submission_patterns(n):
-    """Which submission form each of the n arrivals uses; values are distinct ints."""
+    """Which submission form each of the n arrivals uses; values are distinct ints, except in the
+    'same' / 'alt' patterns, which re-submit equal values (the buffer holds a set)."""
     yield tuple(('put',) for _ in range(n))
+    if n >= 2:
+        yield tuple(('put_same',) for _ in range(n))
+        yield tuple(('put_alt',) for _ in range(n))
     for pos in range(n):
         for kind in ('map_list', 'map_iter'):
             yield tuple((kind,) if i == pos else ('put',) for i in range(n))
@@ -102,6 +106,10 @@ def to_events(pat, gs):
         if kind == 'put':
             ev.append((g, ('put', nxt)))
             nxt += 1
+        elif kind == 'put_same':
+            ev.append((g, ('put', 0)))
+        elif kind == 'put_alt':
+            ev.append((g, ('put', len(ev) % 2)))
         elif kind == 'map_list':
             ev.append((g, ('map_list', (nxt, nxt + 1))))
             nxt += 2
